@@ -4,6 +4,7 @@ package checks
 
 import (
 	"fmt"
+	"math"
 	"math/rand"
 	"sort"
 	"strings"
@@ -363,6 +364,8 @@ func c11Run(env *core.Env, idx int) *core.CaseResult {
 	nt := 2 + r.Intn(2)
 	shared := r.Intn(3) == 0 // tables share column names (id, a, ...)
 	apiVals := r.Intn(4) == 0
+	apiNoNull := apiVals && r.Intn(2) == 0 // API-only values without NULLs (NULL join keys / NULLs in indexed columns are listed findings)
+	signedZeros := !apiVals && r.Intn(4) == 0 // float columns hold +0.0 and -0.0 (no NULLs, nothing else beyond the literal forms)
 	for i := 0; i < nt; i++ {
 		nc := 1 + r.Intn(4)
 		t := &rm.Table{Name: string(rune('p' + i))}
@@ -392,8 +395,14 @@ func c11Run(env *core.Env, idx int) *core.CaseResult {
 			for c := range row {
 				if t.Cols[c].K == rm.KInt && r.Intn(2) == 0 {
 					row[c] = rm.Int(int32(r.Intn(8))) // dense join keys: duplicates and misses
+				} else if t.Cols[c].K == rm.KFloat && signedZeros && r.Intn(4) == 0 {
+					// zeros of both signs compare equal: they have to meet in every join algorithm
+					row[c] = rm.Float(float32(math.Copysign(0, float64(1-2*r.Intn(2)))))
 				} else {
 					row[c] = gen.Value(r, t.Cols[c].K, apiVals, false)
+					for apiNoNull && row[c].Null {
+						row[c] = gen.Value(r, t.Cols[c].K, apiVals, false)
+					}
 				}
 			}
 			t.Rows = append(t.Rows, row)
